@@ -394,6 +394,134 @@ func relay(u *runner.U, datagramMode bool) {
 	}
 }
 
+// relayForms enumerates every sequence of length <= 3 over six destination forms (IPv4 literal
+// to two ports of one host, IPv6 literal, one name to two ports, another name): each datagram
+// reaches exactly the destination and port named in its own header and each reply names the
+// host and port that sent it.
+func relayForms(u *runner.U, datagramMode bool) {
+	type form struct {
+		atyp int
+		name string
+		dst  int // echo index
+	}
+	forms := []form{{1, "", 0}, {1, "", 2}, {4, "", 1}, {3, "echo.example", 0}, {3, "echo.example", 2}, {3, "alt.example", 1}}
+	var seqs [][]int
+	var rec func(cur []int)
+	rec = func(cur []int) {
+		if len(cur) > 0 {
+			seqs = append(seqs, append([]int(nil), cur...))
+		}
+		if len(cur) == 3 {
+			return
+		}
+		for f := range forms {
+			rec(append(cur, f))
+		}
+	}
+	rec(nil)
+	for _, seq := range seqs {
+		var viol string
+		name := fmt.Sprintf("relay-forms datagram-mode=%v forms=%v", datagramMode, seq)
+		inSched(func(n *simnet.Net, s *vsched.Sched) {
+			echos := []*echo{{ip: net.IPv4(93, 184, 216, 40), port: 53}, {ip: net.ParseIP("2001:db8::40"), port: 5353}, {ip: net.IPv4(93, 184, 216, 40), port: 5300}}
+			for ei, e := range echos {
+				ei, e := ei, e
+				ep := n.NewEndpoint(e.ip, e.port)
+				vsched.GoNamed("echo", "app", func() {
+					buf := make([]byte, 65536)
+					for {
+						m, from, err := ep.ReadFrom(buf)
+						if err != nil {
+							return
+						}
+						e.got = append(e.got, append([]byte(nil), buf[:m]...))
+						ep.WriteTo(append([]byte{'r', 'e', byte('0' + ei)}, buf[:m]...), from)
+					}
+				})
+			}
+			a, b := pipe(n, simnet.StreamOpts{})
+			udp, err := vnet.ListenUDP("udp", nil)
+			if err != nil {
+				viol = err.Error()
+				return
+			}
+			res := resolverOf(map[string]net.IP{"echo.example": echos[0].ip, "alt.example": echos[1].ip})
+			var send func(p []byte)
+			var recv func() ([]byte, error)
+			if !datagramMode {
+				vsched.GoNamed("loop", "server", func() { socks5.RunUDPAssociateLoop(udp, apicommon.NewPacketOverStreamTunnel(b), res) })
+				t := apicommon.NewPacketOverStreamTunnel(a)
+				send = func(p []byte) { t.Write(p) }
+				recv = func() ([]byte, error) {
+					buf := make([]byte, 65536)
+					a.SetReadDeadline(s.Now().Add(5 * time.Second))
+					m, err := t.Read(buf)
+					return buf[:m], err
+				}
+			} else {
+				vsched.GoNamed("loop", "server", func() { socks5.VerifRunUDPAssociateDatagramLoop(udp, b, res) })
+				cl := n.NewEndpoint(net.IPv4(203, 0, 113, 5), 4444)
+				to := udp.LocalAddr()
+				send = func(p []byte) { cl.WriteTo(p, to) }
+				recv = func() ([]byte, error) {
+					buf := make([]byte, 65536)
+					cl.SetReadDeadline(s.Now().Add(5 * time.Second))
+					m, _, err := cl.ReadFrom(buf)
+					return buf[:m], err
+				}
+			}
+			for i, fi := range seq {
+				f := forms[fi]
+				e := echos[f.dst]
+				h := header(f.atyp, e.ip, f.name, e.port)
+				payload := []byte(fmt.Sprintf("dgram-%d-to-form-%d", i, fi))
+				var before []int
+				for _, x := range echos {
+					before = append(before, len(x.got))
+				}
+				send(append(append([]byte(nil), h...), payload...))
+				reply, err := recv()
+				if err != nil {
+					viol = fmt.Sprintf("datagram #%d (header form %d, to %v:%d): no reply came back through the association: %v", i, fi, e.ip, e.port, err)
+					return
+				}
+				for xi, x := range echos {
+					want := 0
+					if xi == f.dst {
+						want = 1
+					}
+					if len(x.got)-before[xi] != want {
+						viol = fmt.Sprintf("datagram #%d names %v:%d in its header; destination %v:%d received %d datagram(s), expected %d", i, e.ip, e.port, x.ip, x.port, len(x.got)-before[xi], want)
+						return
+					}
+				}
+				if !bytes.Equal(e.got[before[f.dst]], payload) {
+					viol = fmt.Sprintf("datagram #%d: the destination received %q, expected %q", i, e.got[before[f.dst]], payload)
+					return
+				}
+				ipHdr := header(map[bool]int{true: 1, false: 4}[e.ip.To4() != nil], e.ip, "", e.port)
+				if !bytes.HasPrefix(reply, h) && !bytes.HasPrefix(reply, ipHdr) {
+					viol = fmt.Sprintf("datagram #%d: the reply's header % x does not name the replying host %v:%d", i, head(reply, 24), e.ip, e.port)
+					return
+				}
+				wantBody := append([]byte{'r', 'e', byte('0' + f.dst)}, payload...)
+				if len(reply) < len(wantBody) || !bytes.Equal(reply[len(reply)-len(wantBody):], wantBody) {
+					viol = fmt.Sprintf("datagram #%d: reply payload %q, expected %q", i, head(reply, 64), wantBody)
+					return
+				}
+			}
+			a.Close()
+			udp.Close()
+		})
+		u.Eval(1)
+		u.Distinct(name)
+		if viol != "" {
+			u.Violation("C18/relay-addressing", viol, name, name)
+			return
+		}
+	}
+}
+
 // relayBurst sends datagrams to two destinations back to back and only then collects the
 // replies: each reply must carry the address of the host that sent it.
 func relayBurst(u *runner.U, datagramMode bool) {
@@ -624,11 +752,13 @@ func units(tier string) []runner.Unit {
 	us = append(us, runner.Unit{Name: "relay-packet-over-stream", Cost: 2, Run: func(u *runner.U) {
 		relay(u, false)
 		relayBurst(u, false)
-		u.Sample("RunUDPAssociateLoop: sequences of datagrams with IPv4 / IPv6 / domain headers to two echo destinations, sizes {0,1,2,255,256,1400,9000}")
+		relayForms(u, false)
+		u.Sample("RunUDPAssociateLoop: sequences of datagrams with IPv4 / IPv6 / domain headers to two echo destinations, sizes {0,1,2,255,256,1400,9000}; every sequence of length <=3 over six destination forms (two ports of one IPv4 host, an IPv6 host, one name with two ports, a second name)")
 	}})
 	us = append(us, runner.Unit{Name: "relay-datagram", Cost: 2, Run: func(u *runner.U) {
 		relay(u, true)
 		relayBurst(u, true)
+		relayForms(u, true)
 		u.Sample("runUDPAssociateDatagramLoop: same sequences over a UDP client socket")
 	}})
 	us = append(us, runner.Unit{Name: "bidi-copy-udp", Cost: 2, Run: func(u *runner.U) {
